@@ -8,6 +8,7 @@ import stat
 import signal
 import subprocess
 import tempfile
+import time
 
 from framework import ENV, cli_bin, model_bin, sh
 
@@ -139,16 +140,31 @@ def run_cli(args, epoch=None, env_extra=None, cwd=None, strace_out=None, inject=
         pre_fn = None
     # own session, so that a run that does not come back is killed together with its workers
     p = subprocess.Popen(cmd, env=env, cwd=cwd, stdout=subprocess.PIPE, stderr=subprocess.STDOUT, preexec_fn=pre_fn, start_new_session=True)
-    try:
-        out, _ = p.communicate(timeout=timeout)
-        return p.returncode, out.decode("utf-8", "replace")
-    except subprocess.TimeoutExpired:
+    deadline = time.time() + timeout
+    exited_at = None
+    while True:
         try:
-            os.killpg(p.pid, signal.SIGKILL)
-        except OSError:
-            pass
-        out, _ = p.communicate()
-        return 124, (out or b"").decode("utf-8", "replace") + "\n[timeout]"
+            out, _ = p.communicate(timeout=max(0.1, min(2.0, deadline - time.time())))
+            return p.returncode, out.decode("utf-8", "replace")
+        except subprocess.TimeoutExpired:
+            # the process itself has ended but something it started still holds its output open (workers left behind):
+            # its exit status is the result; what is left of its session is removed
+            if p.poll() is not None:
+                exited_at = exited_at or time.time()
+                if time.time() - exited_at > 4:
+                    try:
+                        os.killpg(p.pid, signal.SIGKILL)
+                    except OSError:
+                        pass
+                    out, _ = p.communicate()
+                    return p.returncode, (out or b"").decode("utf-8", "replace") + "\n[processes left behind after exit]"
+            if time.time() >= deadline:
+                try:
+                    os.killpg(p.pid, signal.SIGKILL)
+                except OSError:
+                    pass
+                out, _ = p.communicate()
+                return 124, (out or b"").decode("utf-8", "replace") + "\n[timeout]"
 
 
 # ----------------------------------------------------------------------------- strace -> abstract operations
